@@ -173,14 +173,15 @@ func (in *Interp) registerSymIntrinsics() {
 		ps := in.ps
 		name := in.vName(args[1])
 		s := args[2].(Str)
-		if s.B == nil {
-			ps.obs = append(ps.obs, name+"="+s.S)
-		} else if ps.concrete != nil {
-			ps.obs = append(ps.obs, name+"="+in.concStr(s))
-		} else {
-			ps.obs = append(ps.obs, name+"="+s.String())
-		}
+		ps.obs = append(ps.obs, obsRec{Name: name, Val: s})
 		return nil
+	}
+	r[P+"Param"] = func(in *Interp, fr *frame, args []Value) Value {
+		name := in.vName(args[1])
+		if v, ok := in.params[name]; ok {
+			return in.tf.Const(64, uint64(int64(v)))
+		}
+		return args[2]
 	}
 	r[P+"Freeze"] = func(in *Interp, fr *frame, args []Value) Value {
 		in.epoch++
